@@ -74,11 +74,19 @@ def _surrogates_inputs():
     return Surrogates(original_data=data, silence_level=3), {"original_data": data}
 
 
+CLIMATE_KW = {
+    "HavlinClimateNetwork": dict(max_delay=2, threshold=0.4),
+    "HilbertClimateNetwork": dict(threshold=0.4, directed=True),
+    "PartialCorrelationClimateNetwork": dict(threshold=0.2, winter_only=False),
+    "RainfallClimateNetwork": dict(threshold=0.2),
+}
+
+
 def _climate_inputs(cls_name):
     import pyunicorn.climate as cl
     obs = V(families._data())
     cd = cl.ClimateData(obs, families._grid(), 5, silence_level=3)
-    kw = dict(threshold=0.4, silence_level=3, winter_only=False)
+    kw = dict(CLIMATE_KW.get(cls_name, dict(threshold=0.4, winter_only=False)), silence_level=3)
     inputs = {"observable": obs, "shared_data.observable()": cd.observable(),
               "shared_data.anomaly()": cd.anomaly()}
     pre = {k: digest(v) for k, v in inputs.items()}      # before the network is derived from the data
@@ -171,8 +179,17 @@ def _surr_calls(obj):
 
 
 def _climate_calls(obj):
-    return [("similarity_measure", obj.similarity_measure), ("adjacency", lambda: obj.adjacency),
-            ("data.anomaly", lambda: obj.data.anomaly()), ("data.observable", lambda: obj.data.observable())]
+    calls = [("similarity_measure", obj.similarity_measure), ("adjacency", lambda: obj.adjacency),
+             ("data.anomaly", lambda: obj.data.anomaly()), ("data.observable", lambda: obj.data.observable()),
+             ("n_links", lambda: obj.n_links), ("degree", obj.degree), ("path_lengths", obj.path_lengths),
+             ("closeness", obj.closeness), ("local_clustering", obj.local_clustering)]
+    for nm in ("correlation_strength", "correlation_lag", "correlation_strength_weighted_average_path_length",
+               "correlation_strength_weighted_closeness", "correlation_lag_weighted_average_path_length",
+               "correlation_lag_weighted_closeness", "local_correlation_strength_weighted_vulnerability",
+               "local_correlation_lag_weighted_vulnerability", "coherence", "phase_shift"):
+        if hasattr(obj, nm):
+            calls.append((nm, getattr(obj, nm)))
+    return calls
 
 
 TARGETS = {
@@ -206,6 +223,13 @@ TARGETS = {
                        lambda obj: ["correlation"], _climate_calls),
     "mutualinfo": Target("mutualinfo", lambda: _climate_inputs("MutualInfoClimateNetwork")[:2],
                          lambda obj: ["mutual_information"], _climate_calls),
+    "havlin": Target("havlin", lambda: _climate_inputs("HavlinClimateNetwork")[:2], lambda obj: [], _climate_calls),
+    "hilbert": Target("hilbert", lambda: _climate_inputs("HilbertClimateNetwork")[:2], lambda obj: [], _climate_calls),
+    "partialcorr": Target("partialcorr", lambda: _climate_inputs("PartialCorrelationClimateNetwork")[:2],
+                          lambda obj: [], _climate_calls),
+    # RainfallClimateNetwork is not a target: two constructions from identical data differ, because the
+    # compiled Spearman kernel indexes its mask with the wrong stride and element size (reads outside the
+    # array - property C20, not applicable to this technique; see DESIGN.md section 10)
 }
 
 
@@ -499,7 +523,7 @@ def _nontrivial(rec):
 
 
 QUICK_TARGETS = ["network", "rp", "rn", "jrp", "surrogates", "climate", "resnetwork", "tsonis", "mutualinfo",
-                 "spearman", "isrn", "eventseries", "interacting_disc"]
+                 "spearman", "isrn", "eventseries", "interacting_disc", "havlin", "hilbert", "partialcorr"]
 
 
 def main(ctx):
